@@ -136,6 +136,12 @@ def _simp(node, ctx):
                     return _simp(copy.deepcopy(ls), ctx)
             if isinstance(a, (ast.List, ast.Tuple)):
                 return C(len(a.elts))
+            # len(np.array(ROWS, dtype=..)) / len([E for v in COLL]) : one row per element of COLL
+            if isinstance(a, ast.Call) and norm(a.func) in ("np.array", "np.asarray", "numpy.array", "numpy.asarray") and a.args and isinstance(a.args[0], (ast.ListComp, ast.List)) \
+                    and all(k.arg == "dtype" for k in a.keywords):
+                return _simp(ast.Call(func=N("len"), args=[a.args[0]], keywords=[]), ctx)
+            if isinstance(a, (ast.ListComp, ast.GeneratorExp)) and len(a.generators) == 1 and not a.generators[0].ifs:
+                return _simp(ast.Call(func=N("len"), args=[a.generators[0].iter], keywords=[]), ctx)
             if isinstance(a, ast.IfExp):
                 return ast.IfExp(
                     test=a.test,
